@@ -243,6 +243,12 @@ def method(ex, st, recv, name, args, kw, node=None):
         except TypeError: pass
     if isinstance(recv, Ref) and recv.cls == "Stream" :
         pass
+    if isinstance(recv, UFL) and name == "extend" and type(args[0]).__name__ == "RepeatList":
+        tgt = node.func.value; rl = args[0]; n0 = recv.length; cnt = lift(rl.count).z
+        item = lift_to(recv.elem_ty, rl.item if recv.elem_ty.kind in ("tuple", "opt") else unopt(rl.item))
+        new = UFL(recv.elem_ty, (lambda i, r=recv, item=item, n0=n0: z3.If(i >= n0, item, r.at(i))), n0 + z3.If(cnt > 0, cnt, 0))
+        for s2, _ in ex.assign(st, tgt, new): yield s2, None
+        return
     if isinstance(recv, UFL) and name == "append":
         tgt = node.func.value; item = lift_to(recv.elem_ty, args[0] if recv.elem_ty.kind in ("tuple", "opt") else unopt(args[0])); n0 = recv.length
         new = UFL(recv.elem_ty, (lambda i, r=recv, item=item, n0=n0: z3.If(i == n0, item, r.at(i))), n0 + 1)
